@@ -468,7 +468,7 @@ def theta_lattice(env, tier, method, n, r, npar):
     if method in ('polar', 'qr'):
         # the orthonormalising charts are scale invariant: every theta != 0 is admissible, including tiny norms
         # (an absolute regularisation of the Gram matrix is only visible there)
-        s0 = [1e-8, 1e-5] + s0
+        s0 = [1e-14, 1e-8, 1e-5] + s0  # 1e-14: below the default eps (1e-12) of library normalisers such as torch.nn.functional.normalize
     for s in s0:
         for k, g in enumerate(atoms):
             ret.append(('%g*atom%d' % (s, k), s * g))
@@ -860,7 +860,7 @@ def build_cases(tier, seed):
     info['models'] = {'states': ns, 'configs': [cfg_name(i) for i in range(len(MODEL_CONFIGS))], 'rank_options': [None, 3, 2, 1] if tier == 'quick' else [None, 4, 3, 2, 1],
                       'num_term': ('{1 (rank 1 only; rejected by Stiefel), max(rank,2), max(rank,2)+1, 6, 8}' if tier == 'quick' else 'every size rank..8 (1 only for rank 1; rejected by Stiefel)'),
                       'theta_lattice': 'polar: {s*atom_k} + {frame, frame + s*atom_k : frame in eye_first, eye_last, fourier, hadamard} (quick: one atom per (frame, scale)); other charts: {s*atom_k, zero, e0, -ones}; GME: x product-state patterns {cycle, all|00>, atom} (float32 quick: cycle, atom; thorough adds cycle2 and a second atom)',
-                      'scales': [0.1, 1, 10] if tier == 'quick' else [1e-3, 0.1, 1, 10, 100], 'atoms': 2 if tier == 'quick' else 6}
+                      'scales': [0.1, 1, 10] if tier == 'quick' else [1e-3, 0.1, 1, 10, 100], 'tiny_scales_polar_qr': [1e-14, 1e-8, 1e-5], 'atoms': 2 if tier == 'quick' else 6}
     info['tolerances'] = {'TOL_C': TOL_C, 'TOL_CPURE': TOL_CPURE, 'TOL_EPURE': TOL_EPURE, 'TOL_PLAIN': TOL_PLAIN, 'TOL_GREL': TOL_GREL, 'TOL_NEG': TOL_NEG}
     info['exhaustive'] = True
     info['note'] = 'exhaustive within the stated alphabets, weights, depth and lattice bounds; says nothing about states or parameters off the lattice'
